@@ -15,6 +15,7 @@
 -/
 import GoSecs.Lemmas.RouterEpoch
 import GoSecs.Lemmas.RouterOwn
+import GoSecs.Lemmas.Secs1Transport
 
 namespace GoSecs.Props.C09
 open GoSecs GoSecs.Router
@@ -240,3 +241,284 @@ example : Reachable (run init staleTrace) ∧ ((run init staleTrace).s 0).pc = .
   refine ⟨⟨_, rfl⟩, by decide, by decide, by decide, by decide, by decide, by decide, by decide⟩
 
 end GoSecs.Props.C09
+
+/-! # SECS-I transport
+
+  The same property on SECS-I connections.  Model GoSecs/Model/Secs1Transport.lean (namespace `GoSecs.S1T`): the shared
+  core's `writeFrame` calls `secs1.transport.Write`, which loads the published generation bundle (`t.gen`), checks that it
+  is the bundle of the caller's socket, hands the request to that generation's single line-engine goroutine and waits on
+  `req.done | gs.genDone`; the engine transmits the blocks (with E4 retransmissions), runs inbound blocks through its own
+  per-generation assembler and delivers complete messages to the core INLINE — also from inside a pending send (contention
+  yield).  `Stop` seals, clears `t.gen`, closes `genDone` and the socket, then joins the engine with a bound.  Invariants:
+  GoSecs/Lemmas/Secs1Transport.lean.
+
+  MODELLING ASSUMPTIONS (stated): `join g` is taken when the engine has exited OR sits inside an inline handler (the bounded
+  join of `Stop` abandoning a wedged handler — after the handler returns such a straggler cannot transmit, receive or deliver:
+  its socket is closed, see `no_block_after_teardown`); an engine descheduled for longer than the close timeout between
+  reading a block and delivering the message it completes is outside the model (as on HSMS-SS).  Distinct generations have
+  distinct sockets (a custom dialer handing out the same net.Conn twice is outside the model).  "Promptly" is measured by the
+  harness; proved is that the release needs no step of the engine. -/
+namespace GoSecs.Props.C09.Secs1
+open GoSecs GoSecs.S1T
+open GoSecs.Router (upd upd_same upd_other b2n)
+
+/-- **Every block goes out on the socket of the generation its sender pinned**: each transmission attempt on the wire
+    log — first transmission or E4 retransmission — was made by the engine of the generation whose bundle the sender's
+    Write loaded (`gs`), and that is the generation of the epoch the send call pinned (`ep`). -/
+theorem block_goes_out_on_pinned_generation (c : Cfg) (hr : Reachable c) (ev : WireEv) (h : ev ∈ c.wire) :
+    ev.sock = (c.s ev.src).ep ∧ (c.s ev.src).gs = some ev.sock := by
+  have hi := inv_reachable hr
+  obtain ⟨h1, _⟩ := hi.wire ev h
+  exact ⟨((hi.sloc ev.src).2.1 ev.sock h1).symm, h1⟩
+
+/-- an engine only ever works on requests of senders pinned to its own generation (directly, or around an inline handler) -/
+theorem engine_serves_own_generation_only (c : Cfg) (hr : Reachable c) (g i : Nat) (h : (c.g g).eng.req = some i) :
+    (c.s i).ep = g ∧ (c.s i).done = none := by
+  have hi := inv_reachable hr
+  obtain ⟨h1, _, h3⟩ := hi.eng g i h
+  exact ⟨(hi.sloc i).2.1 g h1, h3⟩
+
+/-- the I1 check of `Write`: with another generation's bundle published (or none) the request is refused — it is never
+    handed to that generation's engine -/
+theorem write_refuses_other_generation (c : Cfg) (i : Nat) (hp : (c.s i).pc = .checked) (hg : c.tgen ≠ some (c.s i).ep) :
+    ((step c (.load i)).s i).pc = .returned ∧ ((step c (.load i)).s i).wres = some .closed ∧ (step c (.load i)).g = c.g := by
+  simp only [step, enabled, hp, decide_true, if_true, apply, setS, upd_same, Sender.afterLoad]
+  cases ht : c.tgen with
+  | none => simp [Sender.failWith]
+  | some g =>
+    have : g ≠ (c.s i).ep := fun h => hg (by rw [ht, h])
+    simp [this, Sender.failWith]
+
+/-- **After the teardown of a generation nothing more is written to its socket** (nor read from it, nor delivered by its
+    engine), whatever happens afterwards. -/
+theorem no_block_after_teardown (c : Cfg) (hr : Reachable c) (g : Nat) (h : (c.g g).ctxDone = true) (as : List Action) :
+    (run c as).wire.filter (onSock g) = c.wire.filter (onSock g) ∧
+    (run c as).rxlog.filter (· = g) = c.rxlog.filter (· = g) ∧
+    (run c as).deliv.filter (byGen g) = c.deliv.filter (byGen g) := by
+  obtain ⟨a1, a2, a3⟩ := frozen_run g as c (dead_of_ctxDone (inv_reachable hr) g h)
+  exact ⟨a1, a3, a2⟩
+
+/-- the same once the peer has dropped the line -/
+theorem no_block_after_peer_drop (c : Cfg) (g : Nat) (hu : (c.g g).connUp = true) (ho : (c.g g).sockOpen = false)
+    (as : List Action) : (run c as).wire.filter (onSock g) = c.wire.filter (onSock g) :=
+  (frozen_run g as c (by simp [Dead, hu, ho])).1
+
+/-- **No retransmission across generations**: a request whose generation has been torn down — queued at the hand-off,
+    partly transmitted, or fully transmitted — never appears on any wire again: not on its own generation's socket
+    (nothing is written there any more) and not on a later generation's (its blocks can only ever go out on the socket
+    of the generation it pinned). -/
+theorem no_retransmission_on_later_generation (c : Cfg) (hr : Reachable c) (i : Nat) (hp : 2 ≤ (c.s i).pc.rank)
+    (ht : (c.g (c.s i).ep).ctxDone = true) (as : List Action) (ev : WireEv) (hev : ev ∈ (run c as).wire) (hsrc : ev.src = i) :
+    ev ∈ c.wire := by
+  have hsock : ev.sock = (c.s i).ep := by
+    have := (block_goes_out_on_pinned_generation (run c as) (hr.run as) ev hev).1
+    rw [hsrc, (sender_stable_run i as c).2.1 hp] at this
+    exact this
+  have hmem : ev ∈ (run c as).wire.filter (onSock (c.s i).ep) := by
+    rw [List.mem_filter]; exact ⟨hev, by simp [onSock, hsock]⟩
+  rw [(no_block_after_teardown c hr _ ht as).1] at hmem
+  exact (List.mem_filter.mp hmem).1
+
+/-- **A message delivered to the core was assembled from blocks read on the current generation only**: the engine that
+    delivered it belongs to the epoch that is `c.cur` at that moment (the one whose reply registry is consulted), and
+    every block of the message was read from that generation's socket. -/
+theorem delivered_message_read_on_current_generation (c : Cfg) (hr : Reachable c) (d : Deliv) (h : d ∈ c.deliv) :
+    d.cur = some d.gen ∧ ∀ b, b ∈ d.blocks → b = d.gen :=
+  (inv2_reachable hr).deliv d h
+
+/-- the assembler of a generation only ever holds blocks read on that generation's socket ... -/
+theorem assembler_holds_own_generation_blocks_only (c : Cfg) (hr : Reachable c) (g : Nat) (bs : List Nat)
+    (h : (c.g g).part = some bs) : ∀ b, b ∈ bs → b = g :=
+  (inv2_reachable hr).part g bs h
+
+/-- ... every engine starts with an empty one, and no step of another generation's engine touches it: **a partial message of
+    generation N is discarded with N's engine** (the code builds the assembler inside `lineEngine`, once per generation) -/
+theorem partial_message_dies_with_its_generation (c : Cfg) (g g' : Nat) (x : Asm) (hne : g' ≠ g) :
+    ((apply c (.spawn g)).g g).part = none ∧ ((apply c (.rx g' x)).g g).part = (c.g g).part := by
+  simp [apply, setG, upd, hne.symm]
+
+/-- only the engine of the current, not yet joined generation can receive (and therefore deliver) anything -/
+theorem only_current_generation_receives (c : Cfg) (hr : Reachable c) (g : Nat) (x : Asm) (h : enabled c (.rx g x) = true) :
+    c.cur = some g ∧ (c.g g).joined = false ∧ (c.g g).ctxDone = false := by
+  have hi := inv_reachable hr
+  have hch := hi.gen.chain g
+  have hfr := hi.gen.fresh g
+  have hal := hi.gen.alive g
+  simp only [Chain] at hch
+  simp only [enabled, Bool.and_eq_true] at h
+  grind
+
+/-- a sender parked inside `Write`: at the hand-off (`loaded`) or awaiting the engine's report (`handed`) -/
+def parked (w : Sender) : Bool := w.pc = .loaded || w.pc = .handed
+
+/-- **The teardown broadcast releases a parked Write**: the connection-closed branch of BOTH selects of `Write` is
+    enabled exactly when the sender is parked there and the `genDone` of the bundle it loaded is closed ... -/
+theorem closed_branch_iff_own_genDone (c : Cfg) (i : Nat) :
+    enabled c (.bail i) = true ↔ parked (c.s i) = true ∧ ∃ g, (c.s i).gs = some g ∧ (c.g g).genDone = true := by
+  simp only [enabled, parked, Bool.and_eq_true]
+  cases (c.s i).gs <;> simp
+
+/-- ... **independent of the engine's progress**: whatever the line engine of that generation is doing — idle, transmitting
+    this or another request, inside an inline application handler (also one entered from within this very send during a
+    contention yield), exited — neither enables nor holds the branch ... -/
+theorem closed_branch_ignores_engine (c : Cfg) (i g : Nat) (x : Eng) :
+    enabled (setG c g { c.g g with eng := x }) (.bail i) = enabled c (.bail i) := by
+  simp only [enabled, setG, upd]
+  cases (c.s i).gs with
+  | none => rfl
+  | some g' => simp only []; grind
+
+/-- ... nor does the current generation: a later bundle published in `t.gen`, or none -/
+theorem closed_branch_ignores_current_generation (c : Cfg) (i : Nat) (cur' tgen' : Option Nat) :
+    enabled { c with cur := cur', tgen := tgen' } (.bail i) = enabled c (.bail i) := rfl
+
+/-- the two steps of `Stop` (no-ops when already taken) close `genDone` and touch neither senders, engine, lock nor counters -/
+theorem stop_closes_genDone (c : Cfg) (g : Nat) (ht : (c.g g).ctxDone = true) :
+    let c' := run c [.stopSeal g, .stopDone g]
+    (c'.g g).genDone = true ∧ c'.s = c.s ∧ (c'.g g).eng = (c.g g).eng ∧ (c'.g g).lock = (c.g g).lock ∧ c'.m = c.m ∧ c'.wire = c.wire := by
+  cases hs : (c.g g).stopped <;> cases hd : (c.g g).genDone <;>
+    simp [run, step, enabled, apply, setG, upd, ht, hs, hd]
+
+/-- a parked Write whose `genDone` is closed: its own two steps (the `genDone` branch, then `writeFrame` returning) complete it
+    with connection-closed, free the write lock and count nothing -/
+theorem released_write_returns_closed (c : Cfg) (i g : Nat) (hp : parked (c.s i) = true) (hg : (c.s i).gs = some g)
+    (he : (c.s i).ep = g) (hd : (c.g g).genDone = true) :
+    let c' := run c [.bail i, .unlock i]
+    (c'.s i).pc = .done ∧ ((c.s i).kind ≠ .async → (c'.s i).out = some .closed) ∧ (c'.g g).lock = none ∧
+    (c'.g g).eng = (c.g g).eng ∧ c'.m.sent = c.m.sent ∧ c'.m.err = c.m.err ∧ c'.m.inflight = c.m.inflight ∧ c'.wire = c.wire := by
+  simp only [parked, Bool.or_eq_true, decide_eq_true_eq] at hp
+  cases hk : (c.s i).kind <;> rcases hp with hp | hp <;>
+    simp [run, step, enabled, apply, setS, setG, upd, hp, hd, hk, hg, he, Sender.failWith, Sender.afterUnlock, WRes.outcome,
+      WRes.counted, b2n]
+
+/-- **From the start of the teardown, two steps of `Stop` and two own steps complete a parked Write with connection-closed**,
+    whatever the engine does or does not do meanwhile (the engine's position is arbitrary and untouched): the seal and the
+    broadcast are `Stop`'s own steps (no-ops when already taken), then the sender takes the `genDone` branch and
+    `writeFrame` returns: the write lock is free again, nothing was counted as sent or as an error. -/
+theorem teardown_releases_parked_write (c : Cfg) (i g : Nat) (hp : parked (c.s i) = true) (hg : (c.s i).gs = some g)
+    (he : (c.s i).ep = g) (ht : (c.g g).ctxDone = true) :
+    let c' := run c [.stopSeal g, .stopDone g, .bail i, .unlock i]
+    (c'.s i).pc = .done ∧ ((c.s i).kind ≠ .async → (c'.s i).out = some .closed) ∧ (c'.g g).lock = none ∧
+    (c'.g g).eng = (c.g g).eng ∧ c'.m.sent = c.m.sent ∧ c'.m.err = c.m.err ∧ c'.m.inflight = c.m.inflight ∧ c'.wire = c.wire := by
+  obtain ⟨a1, a2, a3, a4, a5, a6⟩ := stop_closes_genDone c g ht
+  have hrun : run c [.stopSeal g, .stopDone g, .bail i, .unlock i] = run (run c [.stopSeal g, .stopDone g]) [.bail i, .unlock i] :=
+    run_append c [.stopSeal g, .stopDone g] [.bail i, .unlock i]
+  obtain ⟨b1, b2, b3, b4, b5, b6, b7, b8⟩ := released_write_returns_closed (run c [.stopSeal g, .stopDone g]) i g
+    (by rw [a2]; exact hp) (by rw [a2]; exact hg) (by rw [a2]; exact he) a1
+  simp only [hrun]
+  refine ⟨b1, fun hk => b2 (by rw [a2]; exact hk), b3, by rw [b4, a3], by rw [b5, a5], by rw [b6, a5], by rw [b7, a5], by rw [b8, a6]⟩
+
+/-- **a Write parked when its generation's `genDone` closes stays releasable for ever**: after any continuation (later
+    generations published, connected, used), as long as it is still parked its connection-closed branch is enabled -/
+theorem parked_write_released_across_generations (c : Cfg) (i g : Nat) (hp : parked (c.s i) = true) (hg : (c.s i).gs = some g)
+    (hd : (c.g g).genDone = true) (as : List Action) (hp' : parked ((run c as).s i) = true) :
+    enabled (run c as) (.bail i) = true := by
+  have h7 : 7 ≤ (c.s i).pc.rank := by
+    simp only [parked, Bool.or_eq_true, decide_eq_true_eq] at hp
+    rcases hp with hp | hp <;> simp [hp, Pc.rank]
+  have hgs := (sender_stable_run i as c).2.2 h7
+  rw [closed_branch_iff_own_genDone]
+  exact ⟨hp', g, by rw [hgs, hg], genDone_run g as c hd⟩
+
+/-- a sender queued on the write lock of a torn-down generation (behind a Write that was released): once the lock is free
+    its own three steps complete it with connection-closed — it never reaches `Write` -/
+theorem lock_waiter_of_ended_generation_returns_closed (c : Cfg) (i : Nat) (hp : (c.s i).pc = .gated) (hk : (c.s i).kind ≠ .async)
+    (ht : (c.g (c.s i).ep).ctxDone = true) (hl : (c.g (c.s i).ep).lock = none) :
+    let c' := run c [.lock i, .check i, .unlock i]
+    (c'.s i).pc = .done ∧ (c'.s i).out = some .closed ∧ (c'.g (c.s i).ep).lock = none ∧ c'.wire = c.wire ∧ c'.m.sent = c.m.sent ∧
+    c'.m.err = c.m.err := by
+  cases hkk : (c.s i).kind <;> first | exact absurd hkk hk | skip
+  all_goals
+    cases hu : (c.g (c.s i).ep).connUp <;>
+    simp [run, step, enabled, apply, setS, setG, upd, hp, hkk, ht, hl, hu, checkRes, Sender.afterCheck, Sender.failWith,
+      Sender.afterUnlock, WRes.outcome, WRes.counted, b2n]
+
+/-- the reply wait is released by the PINNED epoch's context, as on HSMS-SS -/
+theorem reply_wait_released_by_pinned_epoch (c : Cfg) (i : Nat) :
+    enabled c (.decide i .closed) = true ↔ (c.s i).pc = .waiting ∧ (c.g (c.s i).ep).ctxDone = true := by
+  simp [enabled]
+
+/-- ... and its two own steps (the connection-closed branch, the deferred decrement) complete the call: connection-closed, the
+    in-flight gauge back by exactly one, no error counted -/
+theorem reply_waiter_of_ended_generation_returns_closed (c : Cfg) (i : Nat) (hw : (c.s i).pc = .waiting)
+    (ht : (c.g (c.s i).ep).ctxDone = true) :
+    let c' := run c [.decide i .closed, .decInflight i]
+    (c'.s i).pc = .done ∧ (c'.s i).out = some .closed ∧ c'.m.inflight = c.m.inflight - 1 ∧ c'.m.err = c.m.err := by
+  simp [run, step, enabled, apply, setS, upd, hw, ht, Sender.afterDecide, b2n]
+
+/-- a sender whose generation ended (and may have been replaced) between its Write and its reply wait: three own steps,
+    connection-closed, the gauge where it was -/
+theorem written_sender_of_ended_generation_returns_closed (c : Cfg) (i : Nat) (hw : (c.s i).pc = .written)
+    (ht : (c.g (c.s i).ep).ctxDone = true) :
+    let c' := run c [.incInflight i, .decide i .closed, .decInflight i]
+    (c'.s i).pc = .done ∧ (c'.s i).out = some .closed ∧ c'.m.inflight = c.m.inflight ∧ c'.m.err = c.m.err := by
+  simp [run, step, enabled, apply, setS, upd, hw, ht, Sender.afterDecide, b2n]
+
+/-- the steps sender i's own goroutine can take -/
+def own (i : Nat) : Action → Bool
+  | .pin j | .gate j | .enqueue j _ | .lock j | .check j | .load j | .take j | .bail j | .result j | .unlock j
+  | .incInflight j | .decide j _ | .decInflight j => j = i
+  | _ => false
+
+/-- **Why the `genDone` branch of the result wait is needed** (the select `<-req.done | <-gs.genDone`): a Write whose request
+    the engine has taken and not yet answered — e.g. because the engine sits in an inline handler entered during a
+    contention yield of this very send — has NO enabled step of its own other than the `genDone` branch.  With
+    `<-req.done` alone it would wait for the handler to return. -/
+theorem only_genDone_releases_unanswered_write (c : Cfg) (i : Nat) (hp : (c.s i).pc = .handed) (hd : (c.s i).done = none)
+    (a : Action) (ho : own i a = true) (he : enabled c a = true) : a = .bail i := by
+  cases a <;> simp only [own, decide_eq_true_eq, Bool.false_eq_true] at ho <;> subst ho <;>
+    simp [enabled, hp, hd] at he ⊢
+
+/-- at every other point of a send that has begun and not returned the sender has an enabled step of its own, except
+    where it waits for the write lock (held by a sender that is itself covered by this theorem or parked in Write) or
+    for the engine / `genDone` inside Write: it cannot be blocked anywhere else -/
+theorem sender_step_enabled (c : Cfg) (i : Nat) :
+    ((c.s i).pc = .begun → enabled c (.pin i) = true) ∧ ((c.s i).pc = .pinned → enabled c (.gate i) = true) ∧
+    ((c.s i).pc = .gated → (c.s i).kind = .async → enabled c (.enqueue i .recv) = true) ∧
+    ((c.s i).pc = .gated → (c.s i).kind ≠ .async → (c.g (c.s i).ep).lock = none → enabled c (.lock i) = true) ∧
+    ((c.s i).pc = .locked → enabled c (.check i) = true) ∧ ((c.s i).pc = .checked → enabled c (.load i) = true) ∧
+    ((c.s i).pc = .returned → enabled c (.unlock i) = true) ∧ ((c.s i).pc = .written → enabled c (.incInflight i) = true) ∧
+    ((c.s i).pc = .waiting → enabled c (.decide i .timer) = true) ∧ ((c.s i).pc = .decided → enabled c (.decInflight i) = true) := by
+  refine ⟨?_, ?_, ?_, ?_, ?_, ?_, ?_, ?_, ?_, ?_⟩ <;> intros <;> simp_all [enabled]
+
+/-- the write lock: at most one sender per generation is between `lock` and `unlock`, hence at most one request per generation
+    is at the hand-off or with the engine -/
+theorem one_writer_per_generation (c : Cfg) (hr : Reachable c) (i j : Nat) (hi : holds (c.s i).pc = true)
+    (hj : holds (c.s j).pc = true) (he : (c.s i).ep = (c.s j).ep) : i = j := by
+  have hl := (inv_reachable hr).lock
+  have h1 := hl.2 i hi
+  have h2 := hl.2 j hj
+  rw [he, h2] at h1
+  exact (Option.some.inj h1).symm
+
+/-! ## Non-vacuity: the contention-yield case.  Sender 0 (one block) hands its request to the engine of generation 0; the
+    peer contends, the engine yields and takes a single-block message, whose handler runs INLINE inside the pending send
+    (`handler (some 0)`); sender 1 queues on the write lock.  The generation is torn down while the handler blocks. -/
+def yieldTrace : List Action :=
+  [.publish, .connUp, .setSelected true, .spawn 0, .begin 0 .sync 1, .begin 1 .sync 1, .pin 0, .pin 1, .gate 0, .gate 1,
+   .lock 0, .check 0, .load 0, .take 0, .rx 0 (.first true), .setSelected false, .cancel 0]
+
+set_option maxRecDepth 16000 in
+example : Reachable (run init yieldTrace) ∧ ((run init yieldTrace).g 0).eng = .handler (some 0) ∧
+    ((run init yieldTrace).s 0).pc = .handed ∧ ((run init yieldTrace).s 0).done = none ∧ ((run init yieldTrace).s 1).pc = .gated ∧
+    ((run init yieldTrace).g 0).ctxDone = true ∧ ((run init yieldTrace).g 0).genDone = false ∧
+    ((run (run init yieldTrace) [.stopSeal 0, .stopDone 0, .bail 0, .unlock 0, .lock 1, .check 1, .unlock 1]).s 0).out = some .closed ∧
+    ((run (run init yieldTrace) [.stopSeal 0, .stopDone 0, .bail 0, .unlock 0, .lock 1, .check 1, .unlock 1]).s 1).out = some .closed ∧
+    ((run (run init yieldTrace) [.stopSeal 0, .stopDone 0, .bail 0, .unlock 0, .lock 1, .check 1, .unlock 1]).g 0).eng = .handler (some 0) := by
+  refine ⟨⟨_, rfl⟩, by decide, by decide, by decide, by decide, by decide, by decide, by decide, by decide, by decide⟩
+
+/-! a request partly transmitted (one block ACKed, one retransmitted) when the peer drops the line; the next generation comes up
+    and carries another sender's message: nothing of sender 0 is on generation 1 -/
+def retransTrace : List Action :=
+  [.publish, .connUp, .setSelected true, .spawn 0, .begin 0 .sync 2, .pin 0, .gate 0, .lock 0, .check 0, .load 0, .take 0,
+   .xmit 0 true, .xmit 0 false, .peerDrop 0, .finish 0 .ioErr, .result 0, .unlock 0, .exit 0, .setSelected false, .cancel 0,
+   .stopSeal 0, .stopDone 0, .join 0, .publish, .connUp, .setSelected true, .spawn 1, .begin 1 .ff 1, .pin 1, .gate 1, .lock 1,
+   .check 1, .load 1, .take 1, .xmit 1 true, .finish 1 .ok, .result 1, .unlock 1]
+
+set_option maxRecDepth 16000 in
+example : Reachable (run init retransTrace) ∧ (run init retransTrace).wire = [⟨1, 1, true⟩, ⟨0, 0, false⟩, ⟨0, 0, true⟩] ∧
+    ((run init retransTrace).s 0).out = some .ioErr ∧ ((run init retransTrace).s 1).out = some .sent ∧
+    (run init retransTrace).m.sent = 1 ∧ (run init retransTrace).m.err = 1 := by
+  refine ⟨⟨_, rfl⟩, by decide, by decide, by decide, by decide, by decide⟩
+
+end GoSecs.Props.C09.Secs1
